@@ -128,6 +128,7 @@ def component_dump(obj) -> str:
 # --------------------------------------------------------------------------
 
 _SMALL = (int, float, bool, type(None))
+from collections import deque as _deque  # noqa: E402
 from contextvars import ContextVar as _ContextVar  # noqa: E402
 from threading import local as _ThreadLocal  # noqa: E402
 
@@ -204,6 +205,8 @@ class FastSig:
         self.sizes = ()
         self._ids = None
         self._deep = None
+        self._inst_types = set()
+        self._other_types = set()
         self._rescan()
 
     def _mods(self):
@@ -297,6 +300,12 @@ class FastSig:
             d = getattr(v, "__dict__", None)
             if isinstance(d, dict) and depth > 0:
                 return (id(v), FastSig._shallow(d, depth - 1))
+        if isinstance(v, (dict, list, set, _deque)):
+            # subclasses (OrderedDict, defaultdict, Counter ...) and deques: length, and the order of a small one
+            n = len(v)
+            if n > 48 or depth <= 0:
+                return (id(v), n)
+            return (id(v), n, tuple(map(id, v.values() if isinstance(v, dict) else v)))
         if t is _ContextVar:
             # the value the probing thread's context holds (a mutable holder kept there is shared by every
             # context copied from it)
@@ -322,7 +331,22 @@ class FastSig:
                 out.append(None)
                 continue
             t = type(v)
-            out.append((id(v), len(v)) if t is dict or t is list or t is set else id(v))
+            if t is dict or t is list or t is set:
+                out.append((id(v), len(v)))
+            elif t in self._other_types:
+                out.append(id(v))
+            elif t in self._inst_types or (getattr(t, "__module__", "") or "").startswith("rtflite") \
+                    or self._other_types.add(t):
+                # a module-level instance of one of the package's classes: identity and length of what it holds
+                self._inst_types.add(t)
+                dd = getattr(v, "__dict__", None)
+                if isinstance(dd, dict):
+                    out.append((id(v), tuple([(id(x), len(x)) if isinstance(x, (dict, list, set, _deque)) else id(x)
+                                              for x in dd.values()])))
+                else:
+                    out.append(id(v))
+            else:
+                out.append(id(v))
         return hash(tuple(out))
 
     def sig(self):
